@@ -28,9 +28,15 @@ ASSUMPTIONS = [
     "constraint rows are compared as sets matched on (type, Jacobian row, pos, D, aref)",
     "put_model raising NotImplementedError is the documented gate (doc/mjx.rst Feature Parity: 'MJX will raise an "
     "exception if asked to copy an mjModel to the device that references unsupported features') and is counted, not judged",
-    "collision pairs whose contact manifold is documented to differ are excluded from contact-set equality: box-box and "
-    "any pair involving a box other than plane/sphere/capsule (doc/mjx.rst: 'BOX is implemented as a mesh'; mesh-mesh "
-    "uses SAT with <=4 points, C uses up to 8 box-box points) - such states are only judged on contact-independent fields",
+    "contact-set equality is judged only for geom pairs whose narrow phase is the same closed-form algorithm in both engines "
+    "(calibrated empirically on the unchanged tree: plane-sphere, plane-capsule, plane-ellipsoid, sphere-sphere, "
+    "sphere-capsule, capsule-capsule). Pairs involving boxes (doc/mjx.rst: 'BOX is implemented as a mesh': SAT/clipping "
+    "with <=4 points vs up to 8 in C) and non-plane ellipsoid/cylinder pairs (MJX: SDF gradient descent, C: convex "
+    "solver) give different manifolds by design: a state with such an active pair is judged on contact-independent fields only",
+    "contact geometry tolerance 2e-3 and 2e-2 downstream of an active contact: math.closest_segment_point regularises with "
+    "+1e-6 (float32 safety) which moves capsule normals by ~1e-4 even in float64; contact tangent directions are not "
+    "specified by the documentation (mjContact.frame: 'normal is in [0-2]'): states whose tangent frames differ are judged "
+    "on contact geometry only (pyramidal/elliptic rows depend on the tangents)",
     "convex-mesh collisions excluded (trimesh absent in the sandbox)",
 ]
 
@@ -46,7 +52,11 @@ SOLVER_FIELDS = ["qfrc_constraint", "qacc"]
 IMPL_FIELDS = ["cinert", "ten_velocity", "actuator_velocity"]
 STATE_FIELDS = ["qpos", "qvel", "act", "time"]
 
-BOXLIKE = None
+# MJX's segment routines are regularised for float32 (math.closest_segment_point divides by |ab|^2 + 1e-6), which moves
+# capsule contact normals by ~1e-4 even in float64: contact geometry and everything downstream of an active contact is
+# compared with this tolerance instead of 1e-6
+TOL_CONTACT_GEOM = 2e-3
+TOL_CONTACT_DOWNSTREAM = 2e-2
 
 
 def _tols(x64):
@@ -101,13 +111,13 @@ def _to_mjx_data(R, m, mx, d):
 
 
 def _contact_excluded_pair(mj, m, g1, g2):
-    t1, t2 = int(m.geom_type[g1]), int(m.geom_type[g2])
+    """True for geom-type pairs whose contact manifold / narrow-phase algorithm differs by design (see ASSUMPTIONS)."""
     G = mj.mjtGeom
-    box = int(G.mjGEOM_BOX)
-    if box in (t1, t2):
-        other = t2 if t1 == box else t1
-        return other not in (int(G.mjGEOM_PLANE), int(G.mjGEOM_SPHERE), int(G.mjGEOM_CAPSULE))
-    return False
+    exact = {frozenset(p) for p in ((G.mjGEOM_PLANE, G.mjGEOM_SPHERE), (G.mjGEOM_PLANE, G.mjGEOM_CAPSULE),
+                                    (G.mjGEOM_PLANE, G.mjGEOM_ELLIPSOID), (G.mjGEOM_SPHERE,),
+                                    (G.mjGEOM_SPHERE, G.mjGEOM_CAPSULE), (G.mjGEOM_CAPSULE,))}
+    exact = {frozenset(int(x) for x in p) for p in exact}
+    return frozenset((int(m.geom_type[g1]), int(m.geom_type[g2]))) not in exact
 
 
 def _compare_contacts(R, m, dc, dxf, tol, P, sig_prefix):
@@ -136,6 +146,7 @@ def _compare_contacts(R, m, dc, dxf, tol, P, sig_prefix):
                                            "mjx_pairs": [[int(a) for a in xg[j]] for j in xact]}))
         return False, problems
     used = set()
+    frames_differ = []
     xp = np.asarray(c.pos)
     xf = np.asarray(c.frame).reshape(-1, 9)
     match = {}
@@ -157,9 +168,10 @@ def _compare_contacts(R, m, dc, dxf, tol, P, sig_prefix):
         used.add(bj)
         match[i] = int(bj)
         flip = int(xg[bj][0]) != int(ci.geom[0])
+        if _relerr(xf[bj] * (-1 if flip else 1), ci.frame) > TOL_CONTACT_GEOM:
+            frames_differ.append(i)
         for name, a, b in (("dist", xd[bj], ci.dist), ("pos", xp[bj], ci.pos),
                            ("normal", xf[bj][:3] * (-1 if flip else 1), ci.frame[:3]),
-                           ("frame", xf[bj] * (-1 if flip else 1), ci.frame),
                            ("includemargin", xim[bj], ci.includemargin),
                            ("friction", np.asarray(c.friction)[bj], ci.friction),
                            ("solref", np.asarray(c.solref)[bj], ci.solref),
@@ -168,10 +180,13 @@ def _compare_contacts(R, m, dc, dxf, tol, P, sig_prefix):
                            ("dim", np.asarray(c.dim)[bj], ci.dim)):
             e = _relerr(a, b)
             P.note_max("relerr_contact_" + name, e)
-            if e > tol:
+            if e > (max(tol, TOL_CONTACT_GEOM) if name in ("dist", "pos", "normal") else tol):
                 problems.append(("contact-" + name, {"c_contact": i, "mjx_contact": int(bj), "c": np.asarray(b).tolist(),
                                                      "mjx": np.asarray(a).tolist(), "relerr": e,
                                                      "geomtypes": [int(m.geom_type[g]) for g in ci.geom]}))
+    if frames_differ and not problems:
+        P.count("states_with_different_contact_tangent_frame")
+        return None, problems
     return (not problems), problems
 
 
@@ -209,7 +224,8 @@ def _compare_efc(R, m, dc, dxf, tol, tol_s, P):
             if j in used or int(xtype[j]) != int(dc.efc_type[i]):
                 continue
             dd = np.max(np.abs(xJ[j] - J[i])) / Jscale
-            dd += abs(xv["efc_pos"][j] - cv["efc_pos"][i]) / max(1.0, abs(cv["efc_pos"][i]))
+            for k in feats:   # set equality of full row tuples: every compared quantity takes part in the matching
+                dd += abs(xv[k][j] - cv[k][i]) / max(1.0, abs(cv[k][i]))
             if best is None or dd < best:
                 best, bj = dd, j
         if bj is None:
@@ -249,7 +265,7 @@ def _sensor_stage_map(R, m):
 def check_model(R, xml, tags, states, P, x64=True, detail_base=None):
     """Runs all states of one model. `states` is a list of state dicts or None entries (-> random from rng)."""
     mj, mjx = R.mujoco, R.mjx
-    tol, tol_s = _tols(x64)
+    tol, tol_s0 = _tols(x64)
     try:
         m = mj.MjModel.from_xml_string(xml)
     except Exception as e:
@@ -304,6 +320,7 @@ def check_model(R, xml, tags, states, P, x64=True, detail_base=None):
             P.violation("mjx-raises-on-model-accepted-by-put_model:%s@%s" % (type(e).__name__, where), dd)
             return
         problems = []
+        tol_s = tol_s0
 
         def cmp(name, a, b, t):
             if name in SKEW:
@@ -336,8 +353,10 @@ def check_model(R, xml, tags, states, P, x64=True, detail_base=None):
         problems += pc
         contact_dependent_ok = ok_c is not None
         nact = sum(1 for i in range(dcf.ncon) if dcf.contact.dist[i] < dcf.contact.includemargin[i])
+        if nact:
+            tol_s = max(tol_s, TOL_CONTACT_DOWNSTREAM)
         if contact_dependent_ok and ok_c:
-            problems += _compare_efc(R, m, dcf, dxf, tol, tol_s, P)
+            problems += _compare_efc(R, m, dcf, dxf, max(tol, TOL_CONTACT_GEOM) if nact else tol, tol_s, P)
         if contact_dependent_ok:
             for f in SOLVER_FIELDS:
                 cmp(f, getattr(dxf, f), getattr(dcf, f), tol_s)
@@ -393,10 +412,15 @@ def check_model(R, xml, tags, states, P, x64=True, detail_base=None):
             seen.add(sig)
             dd = dict(detail_base or {})
             dd.update({"xml": xml, "tags": tags, "state": st, "field": name, "x64": x64, "diff": det})
-            P.violation("mjx-differs-from-c-engine:%s" % sig + ("[gate:%s accepted]" % gate_tags[0][5:] if gate_tags else ""), dd)
+            P.violation("mjx-differs-from-c-engine:%s" % sig, dd)
 
 
-DOWNSTREAM_OF_SMOOTH_FORCE = ("qfrc_smooth", "qacc_smooth", "qacc", "qfrc_constraint", "efc_force", "step_", "sensor_")
+DOWNSTREAM_OF_SMOOTH_FORCE = ("qfrc_smooth", "qacc_smooth", "qacc", "qfrc_constraint", "efc_force", "step_", "sensor_a", "sensor_f", "sensor_t", "sensor_jointactfrc")
+
+
+def _acc_sensor_names(mj, m):
+    return {"sensor_" + mj.mjtSensor(m.sensor_type[i]).name.replace("mjSENS_", "").lower()
+            for i in range(m.nsensor) if int(m.sensor_needstage[i]) == 3}
 
 
 def _known_causes(R, m, dcf, dxf, tags):
@@ -427,7 +451,13 @@ def _known_causes(R, m, dcf, dxf, tags):
     if any(t in tags for t in ("eq:connect", "eq:weld", "eq:weldmocap")) and not dis & int(mj.mjtDisableBit.mjDSBL_EQUALITY) \
             and not dis & int(mj.mjtDisableBit.mjDSBL_CONSTRAINT):
         out.append(("connect-weld-reference-acceleration-lacks-Jdot-v-term",
-                    lambda f: f in ("efc_aref", "efc_force", "qfrc_constraint", "qacc") or f.startswith(("step_", "sensor_"))))
+                    lambda f: f in ("efc_aref", "efc_force", "qfrc_constraint", "qacc") or f.startswith("step_") or f in _acc_sensor_names(mj, m)))
+    for i in range(m.nsensor):
+        nm = mj.mjtSensor(m.sensor_type[i]).name.replace("mjSENS_", "").lower()
+        if nm in ("framelinacc", "frameangacc") and m.sensor_cutoff[i] > 0:
+            out.append(("sensor-cutoff-not-applied-to-framelinacc-frameangacc",
+                        lambda f: f in ("sensor_framelinacc", "sensor_frameangacc")))
+            break
     if int(dxf._impl.nefc) == 0:
         acc = set()
         for i in range(m.nsensor):
@@ -438,6 +468,11 @@ def _known_causes(R, m, dcf, dxf, tags):
             not dis & int(mj.mjtDisableBit.mjDSBL_ACTUATION):
         if np.any(np.array(m.actuator_gaintype) == int(mj.mjtGain.mjGAIN_MUSCLE)):
             out.append(("implicitfast-derivative-omits-muscle-gain-velocity-term", lambda f: f.startswith("step_")))
+        fl = np.array(m.actuator_forcelimited).astype(bool)
+        if fl.any():
+            fr, af = np.array(m.actuator_forcerange), np.array(dcf.actuator_force)[:m.nu]
+            if np.any(fl & ((af <= fr[:, 0]) | (af >= fr[:, 1]))):
+                out.append(("implicitfast-derivative-ignores-actuator-force-clamp", lambda f: f.startswith("step_")))
     return out
 
 
@@ -468,36 +503,35 @@ def worker(case):
 
 
 def _cases(ctx):
-    n = ctx.pick(40, 480)
+    n = ctx.pick(16, 400)
     cases = []
-    profs = ["contact", "constrained", "contact", "smooth", "contact", "gate", "constrained", "contact"]
+    profs = ["contact", "constrained", "contact", "smooth", "gate", "contact", "constrained", "contact"]
     for i in range(n):
         prof = profs[i % len(profs)]
-        x64 = (i % 8) != 7
-        cases.append({"key": int(core.stable_hash("C43", ctx.seed, i)), "profile": prof, "x64": x64,
-                      "nstates": 3, "small": ctx.quick and prof == "contact" and i % 2 == 0})
+        cases.append({"key": int(core.stable_hash("C43", ctx.seed, i)), "profile": prof, "x64": (i % 8) != 7,
+                      "nstates": ctx.pick(2, 3), "small": ctx.quick or i % 2 == 0,
+                      "integrator": "RK4" if i % 10 == 9 else (None if not ctx.quick else ["Euler", "implicitfast"][i % 2])})
     return cases
 
 
 def run(ctx):
     cases = _cases(ctx)
     ctx.extra["models_generated"] = len(cases)
-    # group by x64 so that a worker process never mixes precisions (jax_enable_x64 is process-global)
-    for x64 in (True, False):
-        sub = [c for c in cases if c["x64"] == x64]
-        results = par.run("vf.props.c43", "worker", sub, nproc=8, timeout=ctx.pick(900, 2400), chunk=None if not ctx.quick else 1)
-        for c, r in zip(sub, results):
-            if r is None or "crash" in r or "exception" in r:
-                ctx.count("worker_failures")
-                ctx.extra.setdefault("worker_failure_samples", [])
-                if len(ctx.extra["worker_failure_samples"]) < 3:
-                    ctx.extra["worker_failure_samples"].append({"case": c, "result": {k: str(v)[-1500:] for k, v in (r or {}).items()}})
-                continue
-            ctx.merge(r)
-    ctx.min_nontrivial = ctx.pick(15, 150)
+    # chunk=1: one process per case, so float32 and float64 cases (jax_enable_x64 is process-global) can share the pool
+    results = par.run("vf.props.c43", "worker", cases, nproc=8, timeout=ctx.pick(900, 2400), chunk=1)
+    for c, r in zip(cases, results):
+        if r is None or "crash" in r or "exception" in r:
+            ctx.count("worker_failures")
+            ctx.extra.setdefault("worker_failure_samples", [])
+            if len(ctx.extra["worker_failure_samples"]) < 3:
+                ctx.extra["worker_failure_samples"].append({"case": c, "result": {k: str(v)[-1500:] for k, v in (r or {}).items()}})
+            continue
+        ctx.merge(r)
+    ctx.min_nontrivial = ctx.pick(10, 120)
     if ctx.counters.get("worker_failures", 0) > len(cases) // 4:
         ctx.inconclusive("too many worker failures (%d of %d)" % (ctx.counters["worker_failures"], len(cases)))
     ctx.extra["skew_dropped_fields"] = SKEW
+    ctx.extra["reference"] = "mujoco wheel C engine (see ASSUMPTIONS)"
 
 
 def replay(ctx, path):
